@@ -18,6 +18,8 @@ import re
 
 from cfront import ExtractFail
 from gen_emit import function_body, switch_groups, enum_values, strip_comments
+import readernorm as rn
+from readernorm import vpat
 
 GEN_NAME = "Instr"
 
@@ -35,9 +37,22 @@ def _read(repo, name):
 
 
 def _for_ranges(body):
-    """[(start, end)] of the brace blocks that belong to a `for (…)` header."""
+    """[(start, end)] of the brace blocks that belong to a `for (…)` / `while (…)` header or a `do`."""
     out = []
-    for m in re.finditer(r"\bfor\s*\(", body):
+    for m in re.finditer(r"\bdo\s*\{", body):
+        j = m.end() - 1
+        d = 0
+        k = j
+        while k < len(body):
+            if body[k] == "{":
+                d += 1
+            elif body[k] == "}":
+                d -= 1
+                if d == 0:
+                    break
+            k += 1
+        out.append((j, k))
+    for m in re.finditer(r"\b(?:for|while)\s*\(", body):
         i = m.end() - 1
         d = 0
         while i < len(body):
@@ -51,8 +66,10 @@ def _for_ranges(body):
         j = i + 1
         while j < len(body) and body[j] in " \t\r\n":
             j += 1
+        if j < len(body) and body[j] == ";":
+            continue                      # the `while (…);` that closes a do-loop
         if j >= len(body) or body[j] != "{":
-            raise ExtractFail("gen_instr", "for loop without a brace block")
+            raise ExtractFail("gen_instr", "loop without a brace block")
         d = 0
         k = j
         while k < len(body):
@@ -92,17 +109,25 @@ def _steps_of_text(text, arg, known_readers, where, resolve):
 def reader_rows(repo):
     srcs = {"instruction.c": _read(repo, "instruction.c"), "instruction.h": _read(repo, "instruction.h"),
             "valuetype.h": _read(repo, "valuetype.h")}
+    raws = {fn: open(os.path.join(repo, "w2c2", fn)).read() for fn in srcs}
     names = []
     bodies = {}
     for fn, src in srcs.items():
         for m in re.finditer(r"^(wasm\w+InstructionRead|wasmReadBlockType|wasmReadValueType)\s*\(", src, re.M):
             name = m.group(1)
             try:
-                body = function_body(src, name, fn)
+                function_body(src, name, fn)
             except ExtractFail:
                 continue                      # a prototype
             if name not in bodies:
                 names.append(name)
+                # canonical form (readernorm): for = while, switch = if-chain, … ; the buffer parameter is renamed to
+                # `buffer` so that the patterns below need not know its name
+                body = rn.canon(raws[fn], name, fn)
+                par = rn.param_names(raws[fn], name, fn)
+                if not par:
+                    raise ExtractFail(fn, f"{name} has no parameters")
+                body = re.sub(r"\b%s\b" % re.escape(par[0]), "buffer", body)
                 bodies[name] = (fn, body)
     for need in ("wasmLocalInstructionRead", "wasmGlobalInstructionRead", "wasmConstInstructionRead",
                  "wasmMemoryArgumentInstructionRead", "wasmCallInstructionRead", "wasmCallIndirectInstructionRead",
@@ -142,6 +167,10 @@ def reader_rows(repo):
                         seen += 1
             if seen != 4:
                 raise ExtractFail(fn, f"wasmConstInstructionRead has {seen} cases, expected the four const opcodes")
+            order = ["wasmOpcodeI32Const", "wasmOpcodeI64Const", "wasmOpcodeF32Const", "wasmOpcodeF64Const"]   # opcode order 0x41..0x44
+            mine = [r for r in rows if r[0].startswith(name + "/")]
+            rows = [r for r in rows if not r[0].startswith(name + "/")] + \
+                sorted(mine, key=lambda r: (order.index(r[0].split("/")[1]) if r[0].split("/")[1] in order else 99, r[0]))
         else:
             rows.append((name, resolve(name)))
     return rows, bodies, resolve
@@ -173,7 +202,7 @@ def dispatch_rows(repo, reader_bodies, resolve_reader):
     def steps_of_text(text, where, depth=0):
         if depth > 12:
             raise ExtractFail(where, "call chain too deep")
-        loops = _for_ranges(text) if "for" in text else []
+        loops = _for_ranges(text) if ("for" in text or "while" in text) else []
         steps = []
         for m in tok.finditer(text):
             name, arg = m.group(1), m.group(2)
@@ -279,35 +308,34 @@ def dispatch_rows(repo, reader_bodies, resolve_reader):
 
 
 def locals_shape(repo):
-    src = _read(repo, "locals.h")
-    body = function_body(src, "wasmLocalsDeclarationsGetType", "locals.h")
-    sig = src[:src.index(body)]
-    if not re.search(r"const\s+U32\s+localIndex", sig) or not re.search(r"\bU32\s+localsCount\s*=\s*0\s*;", body):
-        raise ExtractFail("locals.h", "wasmLocalsDeclarationsGetType: localIndex / localsCount are not U32 starting at 0")
-    loops = _for_ranges(body)
-    if len(loops) != 1:
-        raise ExtractFail("locals.h", "wasmLocalsDeclarationsGetType: expected one for loop")
-    hdr = re.search(r"for\s*\(\s*;\s*localsDeclarationIndex\s*<\s*localsDeclarations\.declarationCount\s*;\s*localsDeclarationIndex\+\+\s*\)", body)
-    if not hdr:
-        raise ExtractFail("locals.h", "wasmLocalsDeclarationsGetType: loop header not recognised")
-    lb = re.sub(r"\s+", " ", body[loops[0][0] + 1:loops[0][1]]).strip()
-    decl = "const WasmLocalsDeclaration localsDeclaration = localsDeclarations.declarations[localsDeclarationIndex];"
-    if not lb.startswith(decl):
-        raise ExtractFail("locals.h", "wasmLocalsDeclarationsGetType: loop body does not start with the declaration fetch")
-    rest = lb[len(decl):].strip()
-    hit = "{ *result = localsDeclaration.type; return true; }"
-    acc = "localsCount += localsDeclaration.count;"
-    shapes = {
-        "if (localIndex < localsCount + localsDeclaration.count) " + hit + " " + acc: "indexBelowTotalPlusCount",
-        acc + " if (localIndex <= localsCount - 1) " + hit: "accumulateThenIndexAtMostTotalMinusOne",
-        acc + " if (localIndex < localsCount) " + hit: "accumulateThenIndexBelowTotal",
-    }
-    if rest not in shapes:
-        raise ExtractFail("locals.h", "wasmLocalsDeclarationsGetType: loop body not recognised: " + rest[:200])
-    tail = re.sub(r"\s+", " ", body[loops[0][1] + 1:]).strip()
-    if tail != "return false;":
-        raise ExtractFail("locals.h", "wasmLocalsDeclarationsGetType: does not end with `return false;`")
-    return shapes[rest]
+    raw = open(os.path.join(repo, "w2c2", "locals.h")).read()
+    body = rn.canon(raw, "wasmLocalsDeclarationsGetType", "locals.h")
+    par = rn.param_names(raw, "wasmLocalsDeclarationsGetType", "locals.h")
+    if len(par) != 3:
+        raise ExtractFail("locals.h", "wasmLocalsDeclarationsGetType: parameters")
+    ds, idx, res = par
+    sig = rn.function_text(rn.strip_comments(raw), "wasmLocalsDeclarationsGetType", "locals.h")[0]
+    if not re.search(r"\bU32\s+" + idx + r"\b", sig):
+        raise ExtractFail("locals.h", "wasmLocalsDeclarationsGetType: the index parameter is not a U32")
+    lp = re.fullmatch(vpat(r"\{ (?P<decls>(?:U32 \w+ = 0; ){2})while \({i} < " + ds + r"\.declarationCount\) \{ (?P<body>.*) {i} \+= 1; \} return false; \}"), body)
+    if lp is None:
+        raise ExtractFail("locals.h", "wasmLocalsDeclarationsGetType: loop over the declarations not recognised: " + body[:200])
+    i = lp.group("i")
+    D = re.escape(f"{ds}.declarations[{i}]")
+    hit = r"\{ \*" + res + " = " + D + r"\.type; return true; \}"
+    shapes = (
+        (r"if \(" + idx + r" < {cnt} \+ " + D + r"\.count\) " + hit + r" {cnt} \+= " + D + r"\.count;", "indexBelowTotalPlusCount"),
+        (r"{cnt} \+= " + D + r"\.count; if \(" + idx + r" <= {cnt} - 1\) " + hit, "accumulateThenIndexAtMostTotalMinusOne"),
+        (r"{cnt} \+= " + D + r"\.count; if \(" + idx + r" < {cnt}\) " + hit, "accumulateThenIndexBelowTotal"),
+    )
+    for pat, name in shapes:
+        m = re.fullmatch(vpat(pat), lp.group("body"))
+        if m:
+            cnt = m.group("cnt")
+            if sorted(re.findall(r"U32 (\w+) = 0; ", lp.group("decls"))) != sorted([cnt, i]):
+                raise ExtractFail("locals.h", "wasmLocalsDeclarationsGetType: the running total / the index are not U32 locals starting at 0")
+            return name
+    raise ExtractFail("locals.h", "wasmLocalsDeclarationsGetType: loop body not recognised: " + lp.group("body")[:200])
 
 
 READER_ROWS = []
